@@ -201,29 +201,29 @@ class Exec:
             op = e[1]
             if op == "&&":
                 a = self.ev(e[2], line)
-                ta = ops.truth(a)
+                ta = self.truth(a)
                 self.pc.append(ta)      # rhs evaluated only when lhs true (for safety obligations)
                 try:
-                    b = self.ev(e[3], line)
+                    b = self.truth(self.ev(e[3], line))
                 finally:
                     self.pc.pop()
-                return z3.And(ta, ops.truth(b))
+                return z3.And(ta, b)
             if op == "||":
                 a = self.ev(e[2], line)
-                ta = ops.truth(a)
+                ta = self.truth(a)
                 self.pc.append(z3.Not(ta))
                 try:
-                    b = self.ev(e[3], line)
+                    b = self.truth(self.ev(e[3], line))
                 finally:
                     self.pc.pop()
-                return z3.Or(ta, ops.truth(b))
+                return z3.Or(ta, b)
             a = self.ev(e[2], line)
             b = self.ev(e[3], line)
             if isinstance(a, tuple) or isinstance(b, tuple):
                 return self.ptr_cmp(op, a, b)
             return ops.binop(op, a, b)
         if k == "tern":
-            c = ops.truth(self.ev(e[1], line))
+            c = self.truth(self.ev(e[1], line))
             self.pc.append(c)
             try:
                 a = self.ev(e[2], line)
@@ -284,6 +284,16 @@ class Exec:
             old = self.load(lv, line)
             self.store(lv, old + 1, line)
             return old + 1
+        if k == "predec":
+            lv = self.lval(e[1])
+            if lv[0] in ("start", "startval"):
+                if (lv[0] == "start") == self.indirect:
+                    raise OutsideSubset("-- on the wrong start pointer form")
+                self.st.start = self.st.start - 1
+                self.consumed -= 1
+                self.events.append(("retreat", line))
+                return ("ptr_in", self.st.start)
+            raise OutsideSubset("-- on something else than the start pointer")
         if k == "assign":
             return self.assign(e[1], e[2], line)
         if k == "call":
